@@ -18,7 +18,7 @@ var notConcurrencySafe = map[string]string{
 }
 
 func runC06S7(c *Ctx) {
-	sa := newSharedAnalysis(c)
+	sa := c06sharedFor(c)
 	n := 0
 	for _, f := range c.AllFns {
 		if !sa.reach[f] {
